@@ -463,6 +463,10 @@ PROPS = {
         ]
     },
     "C15": {
+        "properties": [
+            "C15",
+            "C15_legacy"
+        ],
         "domains": [
             {
                 "name": "c15",
@@ -470,19 +474,33 @@ PROPS = {
                 "n_quick": 16,
                 "n_thorough": 120,
                 "model": True
+            },
+            {
+                "name": "c15old",
+                "run_vo": "Model/RunLegacyChain.vo",
+                "n_quick": 10,
+                "n_thorough": 150,
+                "model": True
             }
         ],
         "trusted": [
+            "legacy part (C15_legacy): the detector is the one postgresql.NewProxyFactory(...).New builds with a callback storage (hook export_verif_x11old.go: its callback ids, in order, are asserted on every scenario, also for the MySQL factory); modelled, not verified: PostgreSQL's handleDataRow around the column loop (the loop itself is Model/LegacyChain.v row_ev, replayed by C11's domain), the MySQL response handler, decoder/encoder subscribers for columns WITH a data type id (C19)",
             "modelled, not verified: what the callbacks themselves do (poison.StopCallback exits, ExecuteScriptCallback starts a script): a callback is the event `Callback` plus an optional error",
             "delivery = the return of OnColumn / of the translator operation (the wire encoding after it is C12/C13)"
         ],
         "assumptions": [
             "Correct C for the poison-record creation theorems; detection/no-False-alarm theorems hold for any C",
             "no_False_alarm is stated on the decrypt function's results (no unforgeability assumed) and as a reduction to an explicit opening witness",
-            "prefix in front of the record is quiet (C01) in the detection theorems"
+            "prefix in front of the record is quiet (C01) in the detection theorems",
+            "raw (legacy) records: the column holds no container header (no_container: the container pass matches nothing - else known finding raw-poison-next-to-container), no AcraStruct tag occurrence starts in front of the record (AcraBlock form: nor inside it); AcraBlock form with arbitrary callbacks after the detector: 'callbacks ran or the column was aborted'"
         ]
     },
     "C11": {
+        "properties": [
+            "C11",
+            "C11_legacy",
+            "C11_lookalike"
+        ],
         "domains": [
             {
                 "name": "c11",
@@ -490,17 +508,27 @@ PROPS = {
                 "n_quick": 40,
                 "n_thorough": 60,
                 "model": True
+            },
+            {
+                "name": "c11old",
+                "run_vo": "Model/RunLegacyChain.vo",
+                "n_quick": 6,
+                "n_thorough": 120,
+                "model": True
             }
         ],
         "trusted": [
-            "modelled, not verified: how the proxies put the column's setting into the context and the OldContainerDetectorWrapper in front of the detector (oracle-only run in the harness); the encryptor chain around the masking encryptor (C19)",
+            "modelled, not verified: the encryptor chain around the masking encryptor (C19); legacy part (C11_legacy): how a SELECT's text becomes the per-column setting list (EncryptionSettingExtractor: the list is an input of the row model, validated by replaying whole rows fetched through the in-process proxy), decoder/encoder subscribers for columns WITH a data type id (C19), the MySQL response handler (its detector callbacks are asserted to be the modelled ones)",
+            "write path (C11_lookalike): the encryptor chain [EncryptHandler; masking.DataEncryptor; ReEncryptHandler] is built by the harness in the order proxyFactory.New builds it (and exercised end to end by INSERTs through the in-process proxy, oracle only); OnlyEncryption() of a setting is modelled as 'no masking pattern' (settings in scope carry masking or nothing)",
+            "legacy part: the model is the FIXED OldContainerDetectorWrapper (patches/fix_wrapper_acrablock_alias.diff applied to /repo): ProcessAcraBlocks gets its own output buffer",
             "the model is the FIXED masking.Processor (patches/fix_masking_forged_header.diff applied to /repo)"
         ],
         "assumptions": [
             "Correct C only where the C01 round trip is invoked (C11_protects_*); read-side theorems hold for any C",
             "window_clear: no complete well-formed envelope at a tag position inside the clear window (implied by C01's quiet; always True for right windows <= 12 bytes)",
             "pattern <> envelope-as-seen (always True for patterns <= 12 bytes)",
-            "non-owner = the decrypt step returns an error or the unchanged container (cannot_open)"
+            "non-owner = the decrypt step returns an error or the unchanged container (cannot_open)",
+            "raw (legacy) stored values: window_quiet = no container header anywhere in the stored value (else known finding legacy-raw-next-to-container), no AcraStruct/AcraBlock tag occurrence starts in the clear window, and none in the delivered view (the second raw pass re-reads it); AcraBlock form: no 8-byte tag run in the stored value"
         ]
     },
     "C04": {
